@@ -28,6 +28,7 @@ mod byz;
 mod chain;
 mod client;
 mod entropy;
+mod minimize;
 mod net;
 mod oracle;
 mod oracle2;
@@ -59,6 +60,7 @@ fn main() {
         "run" => cmd_run(&args),
         "plan" => cmd_plan(&args),
         "replay" => cmd_replay(&args, verbose),
+        "minimize" => cmd_minimize(&args),
         _ => {
             eprintln!("usage: vsim run|plan|replay ...");
             2
@@ -171,5 +173,43 @@ fn cmd_replay(args: &[String], verbose: bool) -> i32 {
         0
     } else {
         1
+    }
+}
+
+fn cmd_minimize(args: &[String]) -> i32 {
+    let path = match args.get(2) {
+        Some(p) => p.clone(),
+        None => return 2,
+    };
+    let budget: u64 = arg_val(args, "--budget").and_then(|s| s.parse().ok()).unwrap_or(60);
+    let text = std::fs::read_to_string(&path).expect("read replay file");
+    let mut v: serde_json::Value = serde_json::from_str(&text).expect("json");
+    let plan: plan::Plan = serde_json::from_value(v["plan"].clone()).expect("plan");
+    let key = v["violation_key"].as_str().unwrap_or("").to_string();
+    match minimize::minimize(&plan, &key, std::time::Duration::from_secs(budget)) {
+        Some(r) => {
+            println!(
+                "minimized: {} -> {} actions, {} -> {} peers, {} -> {} blocks, {} executions",
+                plan.actions.len(),
+                r.plan.actions.len(),
+                plan.peers.len(),
+                r.plan.peers.len(),
+                plan.initial_blocks,
+                r.plan.initial_blocks,
+                r.executions
+            );
+            v["original_actions"] = serde_json::json!(plan.actions.len());
+            v["minimized"] = serde_json::json!(true);
+            v["minimizer_executions"] = serde_json::json!(r.executions);
+            v["plan"] = serde_json::to_value(&r.plan).unwrap();
+            v["trace_hash"] = serde_json::json!(r.trace_hash);
+            v["detail"] = serde_json::json!(r.detail);
+            std::fs::write(&path, serde_json::to_string_pretty(&v).unwrap()).expect("write");
+            0
+        }
+        None => {
+            println!("not reproducible: {}", key);
+            3
+        }
     }
 }
